@@ -384,6 +384,14 @@ class LazyEvaluatedKernelTensor(LinearOperator):
             repeats = repeats[0]
         *batch_repeat, row_repeat, col_repeat = repeats
 
+        # Repeating batch dimensions: x1, x2 and the kernel parameters may not have all of the batch dimensions
+        # of this tensor (broadcasting), and the parameters of a batched kernel cannot be repeated.
+        # Unless x1 and x2 carry the full batch shape themselves, repeat the evaluated kernel instead.
+        if any(batch_size != 1 for batch_size in batch_repeat):
+            batch_shape = self.shape[:-2]
+            if len(self.kernel.batch_shape) or self.x1.shape[:-2] != batch_shape or self.x2.shape[:-2] != batch_shape:
+                return self.evaluate_kernel().repeat(*repeats)
+
         x1 = self.x1.repeat(*batch_repeat, row_repeat, 1)
         x2 = self.x2.repeat(*batch_repeat, col_repeat, 1)
         return self.__class__(
